@@ -31,6 +31,24 @@ func genTeardownWorld(t *rapid.T, prop string, opts SetGenOpts, inject bool) *Sc
 			sc.Steps = append(sc.Steps, GenReconcile(t, ctrls))
 		}
 	}
+	if rapid.IntRange(0, 3).Draw(t, "regress") == 0 {
+		// everything becomes ready, the sets roll out completely; then an early workload regresses and is reconciled a
+		// few times, so the status the teardown starts from reports less than what the set controls
+		for w := 0; w < 4; w++ {
+			sc.Steps = append(sc.Steps, Step{Op: "widget", I: w, J: 1}, Step{Op: "tpReady", I: w, On: true})
+		}
+		sc.Steps = append(sc.Steps, Step{Op: "quiesce"})
+		for i := rapid.IntRange(1, 2).Draw(t, "nregress"); i > 0; i-- {
+			if rapid.Bool().Draw(t, "regressWidget") {
+				sc.Steps = append(sc.Steps, Step{Op: "widget", I: rapid.IntRange(0, 2).Draw(t, "w"), J: rapid.SampledFrom([]int{0, 3}).Draw(t, "state")})
+			} else {
+				sc.Steps = append(sc.Steps, Step{Op: "tpReady", I: rapid.IntRange(0, 3).Draw(t, "cm"), On: false})
+			}
+		}
+		for i := rapid.IntRange(1, 4).Draw(t, "afterRegress"); i > 0; i-- {
+			sc.Steps = append(sc.Steps, GenReconcile(t, ctrls))
+		}
+	}
 	disturb := func() {
 		switch rapid.IntRange(0, 4).Draw(t, "disturb") {
 		case 4:
